@@ -289,10 +289,33 @@ def r17_2(ctx):
                      ctx.bad(construct, f"the dialog is dispatched for `{ast.unparse(k)}`", f.loc(v)))
     ch = repo.func(f"{MODEL}:MenuConfigState.changeable")
     ctx.analysed(ch.qual)
-    rets = [ast.unparse(n.value) for n in ast.walk(ch.node) if isinstance(n, ast.Return) and n.value is not None]
     construct = "MenuConfigState.changeable/refuses locked options"
-    ok = "not sc._has_active_indirect_set" in rets and any("len(sc.assignable) > 1" in r for r in rets) and rets.count("False") >= 2
-    (ctx.ok(construct, ch.loc()) if ok else ctx.bad(construct, f"return expressions are {rets}", ch.loc()))
+    # what changeable() accepts, as a boolean function of its tests (guard clauses, one nested if or a flag - the spelling
+    # does not matter): only a symbol/choice with an active prompt on this node; a text/number option iff no `set` is active;
+    # anything else iff more than one value is assignable or it is a member of a y-mode choice
+    from .common import AcceptCondition
+    ac = AcceptCondition(ch.node)
+    A = {"kind": "isinstance(node.item, (Symbol, Choice))", "prompt": "node.prompt", "pcond": "expr_value(node.prompt[1])", "sym": "isinstance(node.item, Symbol)",
+         "typed": "node.item.orig_type in (STRING, INT, HEX, FLOAT)", "locked": "node.item._has_active_indirect_set", "many": "len(node.item.assignable) > 1",
+         "ymode": "_is_y_mode_choice_sym(node.item)"}
+    missing = [a for a in A.values() if a not in ac.atoms]
+    extra = [a for a in ac.atoms if a not in A.values()]
+    if missing or extra:
+        ctx.bad(construct, f"changeable() no longer decides on {missing or 'what it did'}" + (f" and newly on {extra}" if extra else ""), ch.loc())
+    else:
+        import itertools as _it
+        keys = list(A)
+        wrong = None
+        for vals in _it.product((True, False), repeat=len(keys)):
+            w = dict(zip(keys, vals))
+            if w["sym"] and not w["kind"]:
+                continue
+            spec = w["kind"] and w["prompt"] and w["pcond"] and ((not w["locked"]) if (w["sym"] and w["typed"]) else (w["many"] or w["ymode"]))
+            if bool(ac.accept({A[k]: w[k] for k in keys})) != bool(spec):
+                wrong = w
+                break
+        (ctx.bad(construct, f"with {wrong} the row is {'changeable' if not spec else 'refused'}: an option locked by an active `set`, or a row whose own prompt "
+                 "is not active, can be edited (or an editable one cannot)", ch.loc()) if wrong else ctx.ok(construct, ch.loc(), atoms=len(ac.atoms)))
 
 
 def r17_3(ctx):
